@@ -15,6 +15,20 @@ CLAIMS = {
         '(fix: commits 07f1327, c55e17f). Callbacks assumed pure. No axioms (Closed under the global context).',
    technique='Coq refinement proof (invariant by induction over histories) + extracted-model/implementation correspondence',
    ref='section 9, C19'),
+ 'C13': dict(
+   category='proof',
+   text='Coq theorems over the model of json/scanner.go + json/number.go + bytes.ParseUint/ParseInt: whatever NewNumber accepts is a '
+        'JSON number (all byte strings); every JSON number except the recorded finding F13b is accepted, normalised and denotes the '
+        'value of its text (exponent and length up to 2^40); Cmp/Equal/GT/GTE/LT/LTE on normal forms equal exact comparison of m*10^k '
+        'values in Z, hence two accepted texts compare like their values; String() is a JSON number of the same value; '
+        'LengthOfFractionalPart() is the least k making value*10^k an integer. Model tied to the code by running the extracted model '
+        'and NewNumber on all strings up to a length bound, all pairs of a small-scope pool and random long numbers.',
+   note='Trusted: Coq kernel (vm_compute only in the refutation witness and the example); extraction + OCaml driver; harness; '
+        'Spec/Decimal.v (decomposition grammar, values in Z). Known finding F13b (0e5 rejected; pinned by number_test.go) is excluded '
+        'by the hypothesis known_F13b s = false and refuted by witness C13_grammar_full_refuted. Exponents above 2^40 are outside the '
+        'theorems (finding F13e, C02). No axioms.',
+   technique='Coq proofs (scanner characterised by text decomposition, digit arithmetic) + extracted-model/implementation correspondence',
+   ref='section 9, C13'),
 }
 
 def main():
